@@ -231,6 +231,22 @@ def run(ctx):
         k2, t2, _ = ctx.gen_tokens(src0, {})
         ctx.report('C12/no-overrides', 'a module without overrides still refers to OverrideConstants', {'wgsl': src0},
                    decode_overrides(t2) is not None)
+    # a compute-only module with overrides still gets the struct and the map
+    src_c = 'override n: u32;\n@id(7) override flag: bool;\noverride gain: f32 = 2.0;\n@compute @workgroup_size(1) fn cs() { var x = f32(n) * gain; if (flag) { x = 0.0; } }\n'
+    mc = S.module(src_c)
+    rc = ctx.explore('create_shader_module_inner/compute-only-with-overrides', lambda it: it.call('create_shader_module_inner', [src_c, none(), write_options(S.conv)]),
+                     env=env_passthrough(mc, src_c))
+    ctx.queries['discharged'] += 1
+    ovc = decode_overrides(rc[0][2].fields[0].toks) if rc[0][1] == 'ok' and rc[0][2].disc == 0 else None
+    goodc = (ovc is not None and [f[0] for f in ovc['fields']] == ['n', 'flag', 'gain'] and sorted(k for k, _ in ovc['required']) == ['7', 'n']
+             and [(n_, k) for n_, k, _ in ovc['optional']] == [('gain', 'gain')])
+    if goodc:
+        ctx.queries['unsat'] += 1
+    else:
+        ctx.queries['sat'] += 1
+        k2, t2, _ = ctx.gen_tokens(src_c, {})
+        real = decode_overrides(t2) if k2 == 'ok' else None
+        ctx.report('C12/compute-only', f'compute-only module with overrides: decoded {ovc and ovc["fields"]}', {'wgsl': src_c}, real is None or [f[0] for f in real['fields']] != ['n', 'flag', 'gain'])
     ctx.extra['violations_by_rule'] = seen
     ctx.extra['numeric_lemma'] = {k: ('holds (unsat)' if v is None else 'FAILS') for k, v in lem.items()}
 
